@@ -495,8 +495,9 @@ std::string gen_key(sim::Rng& r, const GenOpts& o) {
   if (m == 3 || m == 4) {   // families of keys sharing prefix and suffix, differing in the middle (lengths 9..40)
     static const int L[] = {9, 12, 13, 14, 15, 16, 17, 24, 33, 40, 65, 70, 97, 130, 200};
     size_t len = o.family_len > 8 ? (size_t)o.family_len : (size_t)L[r.below(o.big_strings ? 15 : 10)];
+    if (o.family_len > 8 && r.chance(1, 5)) len += r.below(4);   // a few look-alikes of slightly different length
     std::string s = "user" + std::string(len - 4 - 4, '0') + "_end";
-    s[4 + r.below(len - 8)] = (char)('1' + r.below((uint64_t)(o.key_alphabet < 9 ? o.key_alphabet : 9)));
+    s[4 + r.below(len - 8)] = r.chance(1, 5) ? (char)(0xC3 + r.below(3)) : (char)('1' + r.below((uint64_t)(o.key_alphabet < 9 ? o.key_alphabet : 9)));   // sometimes a non-ASCII byte
     return s;
   }
   if (m == 2 && o.wild_strings) { static const char* w[] = {"a\0b", "q\"", "b\\", "\n", "\xff\xfe", "a/b"}; size_t k = r.below(6); return k == 0 ? std::string("a\0b", 3) : std::string(w[k]); }
